@@ -69,6 +69,11 @@ pub fn matrix_cases(thorough: bool) -> Vec<MCase> {
         name.extend_from_slice(h);
         out.push(MCase { cmd: vec![name, b"x".to_vec()], name: "(unknown)".into(), variant: format!("hostile{}-name", hk), state: 0 });
     }
+    // the same commands queued in a transaction: ECHO m1, MULTI, <cmd>, EXEC, ECHO m2 (EXEC runs them on another path;
+    // a seeded change let a BLPOP inside EXEC block the client and tear the EXEC reply)
+    let wrapped: Vec<MCase> = out.iter().filter(|c| (c.variant == "example" || c.variant == "nonnumeric") && !matches!(c.name.as_str(), "SUBSCRIBE" | "PSUBSCRIBE" | "UNSUBSCRIBE" | "PUNSUBSCRIBE" | "QUIT" | "MONITOR" | "RESET"))
+        .map(|c| MCase { cmd: c.cmd.clone(), name: c.name.clone(), variant: format!("in-multi-{}", c.variant), state: c.state }).collect();
+    out.extend(wrapped);
     out.push(MCase { cmd: vec![b"NOSUCHCOMMAND".to_vec()], name: "(unknown)".into(), variant: "unknown".into(), state: 0 });
     out.push(MCase { cmd: vec![b"get".to_vec(), b"k".to_vec()], name: "GET".into(), variant: "lowercase".into(), state: 1 });
     out
@@ -181,14 +186,21 @@ fn run_matrix_case(h: &mut Harness, idx: usize, c: &MCase) -> Result<(String, Va
     h.seed_state(c.state)?;
     let m1 = format!("m1-{}", idx).into_bytes();
     let m2 = format!("m2-{}", idx).into_bytes();
+    let in_multi = c.variant.starts_with("in-multi");
     let mut bytes = resp::cmd(&[b"ECHO".to_vec(), m1.clone()]);
+    if in_multi {
+        bytes.extend(resp::cmd(&["MULTI"]));
+    }
     bytes.extend(resp::cmd(&c.cmd));
+    if in_multi {
+        bytes.extend(resp::cmd(&["EXEC"]));
+    }
     bytes.extend(resp::cmd(&[b"ECHO".to_vec(), m2.clone()]));
     let mut cli = h.srv.as_ref().unwrap().connect().map_err(|e| format!("connect: {:?}", e))?;
     cli.send(&bytes);
-    let want = expected_replies(c) + 2;
+    let want = if in_multi { 5 } else { expected_replies(c) + 2 };
     let (mut got, mut err) = h.collect(&mut cli, want, 4);
-    let blocking = c.name == "BLPOP" || c.name == "BRPOP";
+    let blocking = (c.name == "BLPOP" || c.name == "BRPOP") && !in_multi;
     if err.is_none() && got.len() < want && blocking {
         // a blocked client: let its timeout pass
         vtime::tick(2_000_000_000).map_err(|_| "settle timeout".to_string())?;
@@ -214,7 +226,9 @@ fn run_matrix_case(h: &mut Harness, idx: usize, c: &MCase) -> Result<(String, Va
         }
     } else if got.len() > want {
         "extra-reply".to_string()
-    } else if got[0] != R::Bulk(m1.clone()) || (got[got.len() - 1] != R::Bulk(m2.clone()) && !(c.name == "MULTI" && got[got.len() - 1] == R::Simple(b"QUEUED".to_vec()))) {
+    } else if in_multi && (got[0] != R::Bulk(m1.clone()) || got[1] != R::Simple(b"OK".to_vec()) || got[4] != R::Bulk(m2.clone())) {
+        "out-of-order".to_string()
+    } else if !in_multi && (got[0] != R::Bulk(m1.clone()) || (got[got.len() - 1] != R::Bulk(m2.clone()) && !(c.name == "MULTI" && got[got.len() - 1] == R::Simple(b"QUEUED".to_vec())))) {
         "out-of-order".to_string()
     } else {
         "ok".to_string()
@@ -231,7 +245,7 @@ fn run_matrix_case(h: &mut Harness, idx: usize, c: &MCase) -> Result<(String, Va
             let _ = s.steps(2);
         }
     }
-    let detail = json!({"request": ["ECHO m1", resp::show_cmd(&c.cmd), "ECHO m2"], "key_state": cmdtable::key_states()[c.state].0, "replies": shown, "error": err, "followup_ping": follow});
+    let detail = json!({"request": if in_multi { vec!["ECHO m1".to_string(), "MULTI".to_string(), resp::show_cmd(&c.cmd), "EXEC".to_string(), "ECHO m2".to_string()] } else { vec!["ECHO m1".to_string(), resp::show_cmd(&c.cmd), "ECHO m2".to_string()] }, "key_state": cmdtable::key_states()[c.state].0, "replies": shown, "error": err, "followup_ping": follow});
     let final_outcome = if outcome == "ok" && follow != "ok" && follow != "skipped" { follow } else { outcome };
     Ok((final_outcome, detail))
 }
